@@ -1330,11 +1330,18 @@ def from_str(x, prec, rnd=round_fast):
 
     man, exp = str_to_man_exp(x, base=10)
 
-    # XXX: appropriate cutoffs & track direction
+    # XXX: appropriate cutoffs
     # note no factors of 5
     if abs(exp) > 400:
-        s = from_int(man, prec+10)
-        s = mpf_mul(s, mpf_pow_int(ften, exp, prec+10), prec, rnd)
+        # Keep the mantissa exact and round the power of ten in the direction
+        # that keeps a directed result on the right side of the exact value
+        # (the direction flips for a negative mantissa)
+        if man < 0:
+            prnd = negative_rnd[rnd]
+        else:
+            prnd = rnd
+        s = from_int(man)
+        s = mpf_mul(s, mpf_pow_int(ften, exp, prec+10, prnd), prec, rnd)
     else:
         if exp >= 0:
             s = from_int(man * 10**exp, prec, rnd)
